@@ -83,6 +83,15 @@ class TLCResult:
         self.violated = None    # name of violated invariant/property
         self.wall = 0.0
         self.lines = []
+        self.marks = []     # other "@@TAG ..." lines printed by the spec
+
+    def mark(self, tag):
+        """decoded JSON payloads of lines "@@TAG json"."""
+        out = []
+        for line in self.marks:
+            if line.startswith('"' + tag + " "):
+                out.append(json.loads(_tla_unquote(line)[len(tag) + 1:]))
+        return out
 
 
 _unescape_re = re.compile(r'\\(.)')
@@ -153,6 +162,9 @@ def run_tlc(ctx, module, cfg, extra_files=(), workers=None, timeout=600, simulat
                 raise MachineryError("bad vector line from TLC: %s (%s)" % (line[:200], e))
             continue
         if line.startswith(("Parsing file", "Semantic processing", "Linting of")):
+            continue
+        if line.startswith('"@@'):
+            res.marks.append(line)
             continue
         keep.append(line)
     res.lines = keep
@@ -270,7 +282,7 @@ def load_known(prop):
         return []
     with open(path) as fh:
         data = json.load(fh)
-    return [f for f in data.get("findings", []) if f.get("property") == prop]
+    return [f for f in data.get("findings", []) if f.get("property") == prop or prop in f.get("also", [])]
 
 
 # ------------------------------------------------------------ evidence ----
